@@ -269,6 +269,40 @@ func runC19(x *X) {
 				x.Fail("C19.default_and_unknown", append(tags, "unknown_name_rendered"), "unknown style %q rendered (%d bytes, err %v); it must fail with an error and no text", v, len(vo), ve)
 			}
 		}
+		// proper prefixes of registered names are not names: lookups are exact
+		for n := range registered {
+			for _, k := range []int{len(n) - 1, len(n) / 2, 1} {
+				if k <= 0 || k >= len(n) {
+					continue
+				}
+				p := n[:k]
+				if strings.HasSuffix(p, ".") || c19Resolvable(p) || c19Resolvable("texttable."+p) {
+					continue
+				}
+				for _, v := range []string{p, "texttable." + p} {
+					_, vo, ve, pn := render(v)
+					if pn {
+						return
+					}
+					x.Nontrivial("prefix:" + v)
+					if ve == nil || vo != "" {
+						x.Fail("C19.default_and_unknown", append(tags, "unknown_name_rendered", "prefix_of_a_registered_name"), "%q is only a prefix of the registered name %q, yet auto.New(%q) rendered (%d bytes, err %v); an unknown name must fail with an error and no text", v, n, v, len(vo), ve)
+					}
+				}
+			}
+		}
+		for _, v := range []string{"utf8", "utf8-", "utf8-heav", "ascii", "non"} {
+			if c19Resolvable(v) {
+				continue
+			}
+			_, vo, ve, pn := render(v)
+			if pn {
+				return
+			}
+			if ve == nil || vo != "" {
+				x.Fail("C19.default_and_unknown", append(tags, "unknown_name_rendered", "prefix_of_a_builtin_name"), "%q is only a prefix of built-in decoration names, yet auto.New(%q) rendered (%d bytes, err %v)", v, v, len(vo), ve)
+			}
+		}
 		// the style string decides, not what the table given to Wrap happens to be: wrapping an already decorated
 		// (or failed) text table with a plain style must give that style's output
 		x.Clause("C19.style_decides_not_the_wrapped_table")
@@ -315,7 +349,12 @@ func runC19(x *X) {
 // (first section, everything after 'texttable.', or the whole string)?  Computed from the registry's
 // current content, which may include names left by earlier executions of this process.
 func c19Resolvable(style string) bool {
-	known := func(n string) bool { return decoration.Named(n) != decoration.EmptyDecoration }
+	// "known" means: listed under exactly this name (not: whatever a lookup happens to return)
+	listed := map[string]bool{}
+	for _, n := range decoration.RegisteredDecorationNames() {
+		listed[n] = true
+	}
+	known := func(n string) bool { return listed[n] }
 	sections := strings.Split(style, ".")
 	first := strings.ToLower(sections[0])
 	if subPackages[first] {
